@@ -71,10 +71,8 @@ extern int mpt_vprintf(MPT_STRUCT(array) *arr, const char *format, va_list args)
 		buf->_used = used;
 		return MPT_ERROR(BadValue);
 	}
-	if (rval >= 0 && (size_t) rval <= len) {
-		if ((size_t) rval < len) {
-			base[rval] = '\0';
-		}
+	if ((size_t) rval < len) {
+		base[rval] = '\0';
 		buf->_used = used + rval;
 		return rval;
 	}
@@ -85,13 +83,15 @@ extern int mpt_vprintf(MPT_STRUCT(array) *arr, const char *format, va_list args)
 		return MPT_ERROR(BadOperation);
 	}
 	size = used + len;
+	buf = arr->_buf;
 	if ((rval = vsnprintf(base, len, format, args)) > 0) {
-		used += rval;
-		if (used < size) {
+		if ((used + rval) < size) {
 			base[rval] = '\0';
+			buf->_used = used + rval;
 			return rval;
 		}
 	}
+	buf->_used = used;
 	return MPT_ERROR(BadValue);
 }
 
